@@ -1545,6 +1545,11 @@ def np_searchsorted(I, st, args, kw, node):
 @ext("numpy.dot", "np.dot of two 2-d arrays: (A.B)[a,b] = sum_i A[a,i] B[i,b] (T-SUM three-index prefix sums)")
 def np_dot(I, st, args, kw, node):
     A, B = arr_of(st, args[0]), arr_of(st, args[1])
+    if A is not None and B is not None and A.ndim == 1 and B.ndim == 1:
+        # inner product of two vectors: the total of the element-wise product (T-SUM); lengths must agree (numpy raises otherwise)
+        I.oblige(f"call:np.dot:same-length@{node.lineno}", st, to_z3(A.shape[0], "int") == to_z3(B.shape[0], "int"), node)
+        prod = Arr(A.shape, lambda i: to_z3(A.at(i), "real") * to_z3(B.at(i), "real"), "real", prov=("mul", A, B))
+        return T.sums.total(st, prod)
     if A is None or B is None or A.ndim != 2 or B.ndim != 2:
         h = I.ext.get("numpy.matmul")
         if h is not None:
